@@ -43,7 +43,8 @@ EXTENDS Integers, Sequences, FiniteSets, TLC, Json
 
 CONSTANTS DeepCopyRebindsParents, CopyHookBoundToCopy, FlattenCopiesTop,
           MaxTrees, MaxOps,
-          Universe         \* "small" or "full": which edits are explored
+          Lib,             \* "flat": one name space;  "pkg": classes in several packages
+          Universe         \* which edits are explored
 
 VARIABLES val,     \* value semantics: sequence of tree values
           obj,     \* pointer semantics: object id -> object
@@ -54,23 +55,50 @@ VARIABLES val,     \* value semantics: sequence of tree values
 
 vars == <<val, obj, roots, ops, hist, last>>
 
-Classes == {"f", "Leaf", "Mid", "Top", "Bare"}
-Order   == <<"f", "Leaf", "Mid", "Top", "Bare">>       \* order in which deepcopy visits tree.classes
+(* ---- library "flat" (one name space) -------------------------------------------------------
+       function f (u, v);  model Base (w0);  model Leaf (x; NO equations);
+       model Mid (extends Base; Leaf l; y; Mid0: y = f(l.x));  model Top (extends Mid; Bare b; z; Top0);
+       model Bare (NO symbols, NO equations)                     -> chain Top extends Mid extends Base
+   ---- library "pkg" (several packages; P.Comp is not visible from Q.D, package R comes last) -----
+       package P { model Comp (R.Inner i; u);  model Base (Comp c; w) }
+       package Q { model D (extends P.Base; d) }
+       package R { model Inner (x; In0);  model Holder (Inner h);  model Special (extends Inner; sp) }   *)
+Order == IF Lib = "flat" THEN <<"f", "Base", "Leaf", "Mid", "Top", "Bare">>       \* pre-order of all nodes
+         ELSE <<"P", "P.Comp", "P.Base", "Q", "Q.D", "R", "R.Inner", "R.Holder", "R.Special">>
+Nodes == {Order[j] : j \in DOMAIN Order}
+Packages == IF Lib = "flat" THEN {} ELSE {"P", "Q", "R"}
+Classes == Nodes \ Packages
+PathOf(n) == CASE n \in {"P.Comp"} -> <<"P", "Comp">> [] n = "P.Base" -> <<"P", "Base">> [] n = "Q.D" -> <<"Q", "D">>
+               [] n = "R.Inner" -> <<"R", "Inner">> [] n = "R.Holder" -> <<"R", "Holder">>
+               [] n = "R.Special" -> <<"R", "Special">> [] OTHER -> <<n>>
+Short(n) == PathOf(n)[Len(PathOf(n))]
+PkgOf(n) == IF Len(PathOf(n)) = 1 THEN "" ELSE PathOf(n)[1]
 OwnSyms(c) == CASE c = "Leaf" -> {"x"} [] c = "Mid" -> {"y"} [] c = "Top" -> {"z"} [] c = "Bare" -> {} [] c = "f" -> {"u", "v"}
-OwnEqs(c)  == CASE c = "Mid" -> {"Mid0"} [] c = "Top" -> {"Top0"} [] OTHER -> {}
-BaseOf(c)  == IF c = "Top" THEN "Mid" ELSE ""           \* extends clause
-CompsOf(c) == CASE c = "Mid" -> {<<"l", "Leaf">>} [] c = "Top" -> {<<"b", "Bare">>} [] OTHER -> {}   \* class-typed components
+                [] c = "Base" -> {"w0"}
+                [] c = "P.Comp" -> {"u"} [] c = "P.Base" -> {"w"} [] c = "Q.D" -> {"d"} [] c = "R.Inner" -> {"x"}
+                [] c = "R.Holder" -> {} [] c = "R.Special" -> {"sp"} [] OTHER -> {}
+OwnEqs(c)  == CASE c = "Mid" -> {"Mid0"} [] c = "Top" -> {"Top0"} [] c = "R.Inner" -> {"In0"} [] OTHER -> {}
+BaseOf(c)  == CASE c = "Top" -> "Mid" [] c = "Mid" -> "Base" [] c = "Q.D" -> "P.Base" [] c = "R.Special" -> "R.Inner"
+                [] OTHER -> ""                                                      \* extends clause
+CompsOf(c) == CASE c = "Mid" -> {<<"l", "Leaf">>} [] c = "Top" -> {<<"b", "Bare">>}
+                [] c = "P.Comp" -> {<<"i", "R.Inner">>} [] c = "P.Base" -> {<<"c", "P.Comp">>}
+                [] c = "R.Holder" -> {<<"h", "R.Inner">>} [] OTHER -> {}               \* class-typed components
 Calls(e)   == IF e \in {"Mid0", "E1"} THEN {"f"} ELSE {}   \* user functions called by an equation
-U(sy, eq, ie, cl) == [sym |-> sy, eq |-> eq, ieq |-> ie, cls |-> cl]
-Edits == CASE Universe = "u1" -> U({<<"Leaf", "u">>, <<"Mid", "v">>}, {<<"Leaf", "E1">>}, {}, {"Leaf"})
-           [] Universe = "u2" -> U({<<"Bare", "s">>, <<"f", "t">>}, {<<"Leaf", "E1">>}, {<<"Top", "I1">>}, {})
-           [] Universe = "u3" -> U({<<"Bare", "s">>, <<"f", "t">>}, {}, {}, {})
+U(sy, eq, ie, cl, lv) == [sym |-> sy, eq |-> eq, ieq |-> ie, cls |-> cl, live |-> lv]
+Edits == CASE Universe = "u1" -> U({<<"Leaf", "u">>, <<"Mid", "v">>}, {<<"Leaf", "E1">>}, {}, {"Leaf"}, {})
+           [] Universe = "u2" -> U({<<"Bare", "s">>, <<"f", "t">>}, {<<"Leaf", "E1">>}, {<<"Top", "I1">>}, {}, {})
+           [] Universe = "u3" -> U({<<"Bare", "s">>, <<"f", "t">>}, {}, {}, {}, {"Top"})
+           [] Universe = "u4" -> U({<<"Mid", "v">>}, {}, {}, {"Base"}, {"Top"})          \* the END of an extends chain goes and comes back
            [] Universe = "full" -> U({<<"Leaf", "u">>, <<"Mid", "v">>, <<"Top", "w">>, <<"Bare", "s">>, <<"f", "t">>},
-                                     {<<"Leaf", "E1">>, <<"Top", "E2">>}, {<<"Top", "I1">>}, {"Leaf"})
+                                     {<<"Leaf", "E1">>, <<"Top", "E2">>}, {<<"Top", "I1">>}, {"Leaf", "Base"}, {"Top"})
+           [] Universe = "p1" -> U({<<"R.Inner", "n">>, <<"P.Comp", "m">>}, {<<"R.Inner", "E9">>}, {}, {"R.Inner"}, {"Q.D"})
+           [] Universe = "pfull" -> U({<<"R.Inner", "n">>, <<"P.Comp", "m">>, <<"Q.D", "k">>, <<"R.Holder", "g">>},
+                                      {<<"R.Inner", "E9">>}, {<<"Q.D", "I1">>}, {"R.Inner", "P.Comp"}, {"Q.D", "R.Holder"})
 SymEdits == Edits.sym        \* distinct names: no clashes through inheritance
 EqEdits  == Edits.eq
 IeqEdits == Edits.ieq
 ClassEdits == Edits.cls
+LiveFlat == Edits.live       \* classes that histories flatten on the LIVE tree (before later copies / edits)
 
 NoFuncs == [n \in {} |-> {}]
 Err(t) == [ok |-> FALSE, err |-> t, syms |-> {}, eqs |-> {}, ieqs |-> {}, funcs |-> NoFuncs]
@@ -118,15 +146,27 @@ ReachV(t, c) ==
 (* POINTER SEMANTICS *)
 NoKids == [n \in {} |-> 0]
 TreeObj(kids, src)   == [kind |-> "tree", name |-> "", syms |-> {}, eqs |-> {}, ieqs |-> {}, kids |-> kids, parent |-> 0, src |-> src]
-ClassObj(c, s, e, ie, p, src) == [kind |-> "class", name |-> c, syms |-> s, eqs |-> e, ieqs |-> ie, kids |-> NoKids, parent |-> p, src |-> src]
+NodeObj(c, s, e, ie, kids, p, src) ==
+    [kind |-> IF c \in Packages THEN "package" ELSE "class", name |-> c, syms |-> s, eqs |-> e, ieqs |-> ie,
+     kids |-> kids, parent |-> p, src |-> src]
 
 N(o) == Len(o)
-(* Class._find_class: own nested classes, then the parent chain *)
+(* Class._find_class: own nested classes, then the parent chain; a dotted name descends from the first hit *)
 RECURSIVE Find(_, _, _)
 Find(o, p, name) ==
     IF p = 0 THEN 0
     ELSE IF name \in DOMAIN o[p].kids THEN o[p].kids[name]
     ELSE Find(o, o[p].parent, name)
+RECURSIVE Descend(_, _, _)
+Descend(o, x, rest) ==
+    IF x = 0 \/ rest = <<>> THEN x
+    ELSE IF Head(rest) \in DOMAIN o[x].kids THEN Descend(o, o[x].kids[Head(rest)], Tail(rest)) ELSE 0
+FindQ(o, p, c) == Descend(o, Find(o, p, PathOf(c)[1]), Tail(PathOf(c)))
+(* the object that is class / package c of tree i, the container it lives in *)
+KidQ(o, r, i, c) == Descend(o, r[i], PathOf(c))
+HasKid(o, r, i, c) == KidQ(o, r, i, c) # 0
+Kid(o, r, i, c) == KidQ(o, r, i, c)
+Container(o, r, i, c) == Descend(o, r[i], SubSeq(PathOf(c), 1, Len(PathOf(c)) - 1))
 
 (* flatten of the class object f.  `top`: f is the requested class itself (looked up with
    copy = FlattenCopiesTop); everything else is reached through find_class(copy=True),
@@ -136,41 +176,54 @@ FlatObj(o, f, top) ==
     LET e == IF top /\ ~FlattenCopiesTop THEN f ELSE o[f].src
         c == o[e].name
         p == o[e].parent
-        Sub(ty) == LET k == Find(o, p, ty) IN IF k = 0 THEN Err("ClassNotFoundError") ELSE FlatObj(o, k, FALSE)
+        Sub(ty) == LET k == FindQ(o, p, ty) IN IF k = 0 THEN Err("ClassNotFoundError") ELSE FlatObj(o, k, FALSE)
         b == IF BaseOf(c) = "" THEN Empty ELSE Sub(BaseOf(c))
         cs == SetToSeq(CompsOf(c))
         ks == [k \in DOMAIN cs |-> Prefix(cs[k][1], Sub(cs[k][2]))]
         called == UNION {Calls(q) : q \in o[e].eqs}
         (* FunctionExpander: find_class(copy=True) from the instance; not found = builtin function *)
-        fs == [n \in {m \in called : Find(o, p, m) # 0} |-> o[o[Find(o, p, n)].src].syms]
+        fs == [n \in {m \in called : FindQ(o, p, m) # 0} |-> o[o[FindQ(o, p, n)].src].syms]
         own == Ok(o[e].syms, o[e].eqs, o[e].ieqs, fs)
     IN  Join(b, ks \o <<own>>)
 
 FlatP(o, r, i, c) ==
-    IF c \notin DOMAIN o[r[i]].kids THEN Err("ClassNotFoundError")
-    ELSE FlatObj(o, o[r[i]].kids[c], TRUE)
+    IF KidQ(o, r, i, c) = 0 THEN Err("ClassNotFoundError")
+    ELSE FlatObj(o, KidQ(o, r, i, c), TRUE)
 
-(* copy.deepcopy(tree i) *)
+(* copy.deepcopy: the children of source object s are copied below the new object newId; every child is
+   really a copy of ITS hook source, and keeps that object's parent unless that parent is s itself and
+   parents are rebound.  Ids are handed out in pre-order.                                           *)
+KidOrder(o, s) == SelectSeq(Order, LAMBDA n : Short(n) \in DOMAIN o[s].kids /\ o[o[s].kids[Short(n)]].name = n)
+RECURSIVE CopyKids(_, _, _, _, _)
+CopyKids(o, s, names, newId, next) ==
+    IF names = <<>> THEN [objs |-> <<>>, kids |-> NoKids, next |-> next]
+    ELSE LET nm == Short(Head(names))
+             sc == o[o[s].kids[nm]].src
+             id == next
+             sub == CopyKids(o, sc, KidOrder(o, sc), id, id + 1)
+             par == IF DeepCopyRebindsParents /\ o[sc].parent = s THEN newId ELSE o[sc].parent
+             me == NodeObj(o[sc].name, o[sc].syms, o[sc].eqs, o[sc].ieqs, sub.kids, par,
+                           IF CopyHookBoundToCopy THEN id ELSE o[sc].src)
+             rest == CopyKids(o, s, Tail(names), newId, sub.next)
+         IN  [objs |-> <<me>> \o sub.objs \o rest.objs,
+              kids |-> [k \in {nm} \cup DOMAIN rest.kids |-> IF k = nm THEN id ELSE rest.kids[k]],
+              next |-> rest.next]
 CopyTree(o, r, i) ==
     LET s    == o[r[i]].src                       \* the object whose __deepcopy__ runs
         n0   == N(o) + 1
-        ks   == SelectSeq(Order, LAMBDA c : c \in DOMAIN o[s].kids)
-        Child(j) ==
-            LET sc == o[o[s].kids[ks[j]]].src     \* ... and the same for every child
-                id == n0 + j
-                par == IF DeepCopyRebindsParents /\ o[sc].parent = s THEN n0 ELSE o[sc].parent
-            IN  ClassObj(o[sc].name, o[sc].syms, o[sc].eqs, o[sc].ieqs, par,
-                         IF CopyHookBoundToCopy THEN id ELSE o[sc].src)
-        kids == [c \in {ks[j] : j \in DOMAIN ks} |-> n0 + (CHOOSE j \in DOMAIN ks : ks[j] = c)]
-        root == TreeObj(kids, IF CopyHookBoundToCopy THEN n0 ELSE o[s].src)
-    IN  [obj |-> o \o <<root>> \o [j \in DOMAIN ks |-> Child(j)], roots |-> Append(r, n0)]
-
-HasKid(o, r, i, c) == c \in DOMAIN o[r[i]].kids
-Kid(o, r, i, c) == o[r[i]].kids[c]
+        ck   == CopyKids(o, s, KidOrder(o, s), n0, n0 + 1)
+        root == TreeObj(ck.kids, IF CopyHookBoundToCopy THEN n0 ELSE o[s].src)
+    IN  [obj |-> o \o <<root>> \o ck.objs, roots |-> Append(r, n0)]
 
 -----------------------------------------------------------------------------
-InitObjs == << TreeObj([c \in Classes |-> 1 + (CHOOSE j \in 1..Len(Order) : Order[j] = c)], 1) >>
-            \o [j \in 1..Len(Order) |-> ClassObj(Order[j], OwnSyms(Order[j]), OwnEqs(Order[j]), {}, 1, j + 1)]
+IdOf(n) == 1 + (CHOOSE j \in DOMAIN Order : Order[j] = n)
+InitKids(p) == [k \in {Short(n) : n \in {m \in Nodes : PkgOf(m) = p /\ m # p}} |->
+                   IdOf(CHOOSE n \in Nodes : PkgOf(n) = p /\ n # p /\ Short(n) = k)]
+InitObjs == << TreeObj([k \in {n \in Nodes : PkgOf(n) = ""} |-> IdOf(k)], 1) >>
+            \o [j \in DOMAIN Order |->
+                  LET n == Order[j] IN
+                  NodeObj(n, OwnSyms(n), OwnEqs(n), {}, IF n \in Packages THEN InitKids(n) ELSE NoKids,
+                          IF PkgOf(n) = "" THEN 1 ELSE IdOf(PkgOf(n)), j + 1)]
 Init == /\ val = <<PristineVal>>
         /\ obj = InitObjs
         /\ roots = <<1>>
@@ -182,9 +235,9 @@ Trees == DOMAIN val
 
 ExpectAll(v) == [i \in DOMAIN v |-> [c \in Classes |-> FlatV(v[i], c)]]
 AsBuiltAll(o, r) == [i \in DOMAIN r |-> [c \in Classes |-> FlatP(o, r, i, c)]]
-ParentsOf(o, r) == [i \in DOMAIN r |-> [c \in DOMAIN o[r[i]].kids |->
-                        IF o[o[r[i]].kids[c]].parent = r[i] THEN "own"
-                        ELSE IF o[o[r[i]].kids[c]].parent = 0 THEN "none" ELSE "foreign"]]
+ParentsOf(o, r) == [i \in DOMAIN r |-> [c \in {d \in Classes : KidQ(o, r, i, d) # 0} |->
+                        IF o[KidQ(o, r, i, c)].parent = Container(o, r, i, c) THEN "own"
+                        ELSE IF o[KidQ(o, r, i, c)].parent = 0 THEN "none" ELSE "foreign"]]
 
 Finish(a) == /\ ops' = ops + 1
              /\ hist' = Append(hist, a)
@@ -248,7 +301,7 @@ RemoveClass(i, c) ==
     /\ val[i][c].here
     /\ val' = [val EXCEPT ![i][c] = Gone]
     /\ obj' = IF HasKid(obj, roots, i, c)
-              THEN [obj EXCEPT ![roots[i]].kids = [n \in DOMAIN @ \ {c} |-> @[n]],
+              THEN [obj EXCEPT ![Container(obj, roots, i, c)].kids = [n \in DOMAIN @ \ {Short(c)} |-> @[n]],
                                ![Kid(obj, roots, i, c)].parent = 0]
               ELSE obj
     /\ UNCHANGED roots
@@ -258,16 +311,25 @@ RemoveClass(i, c) ==
 AddClass(i, c) ==
     /\ ~val[i][c].here
     /\ val' = [val EXCEPT ![i][c] = PristineClass(c)]
-    /\ LET id == N(obj) + 1 IN
-       obj' = [obj EXCEPT ![roots[i]].kids = [n \in DOMAIN @ \cup {c} |-> IF n = c THEN id ELSE @[n]]]
-              \o <<ClassObj(c, OwnSyms(c), OwnEqs(c), {}, roots[i], id)>>
+    /\ LET id == N(obj) + 1
+           box == Container(obj, roots, i, c)
+       IN  obj' = IF box = 0 THEN obj
+                  ELSE [obj EXCEPT ![box].kids = [n \in DOMAIN @ \cup {Short(c)} |-> IF n = Short(c) THEN id ELSE @[n]]]
+                       \o <<NodeObj(c, OwnSyms(c), OwnEqs(c), {}, NoKids, box, id)>>
     /\ UNCHANGED roots
-    /\ Finish([act |-> "add_class", i |-> i, c |-> c, raises |-> FALSE])
+    /\ Finish([act |-> "add_class", i |-> i, c |-> c, raises |-> Container(obj, roots, i, c) = 0])
+
+(* tree.flatten(tree i, c) on the LIVE tree: must not change anything (C05) - in particular nothing that a
+   later deepcopy or edit could trip over *)
+FlattenLive(i, c) ==
+    /\ UNCHANGED <<val, obj, roots>>
+    /\ Finish([act |-> "flatten", i |-> i, c |-> c, raises |-> FALSE])
 
 Edit(i) == \/ \E p \in SymEdits : AddSymbol(i, p[1], p[2]) \/ RemoveSymbol(i, p[1], p[2])
            \/ \E p \in EqEdits : AddEquation(i, p[1], p[2]) \/ RemoveEquation(i, p[1], p[2])
            \/ \E p \in IeqEdits : AddInitialEquation(i, p[1], p[2]) \/ RemoveInitialEquation(i, p[1], p[2])
            \/ \E c \in ClassEdits : AddClass(i, c) \/ RemoveClass(i, c)
+           \/ \E c \in LiveFlat : FlattenLive(i, c)
 
 Next == /\ ops < MaxOps
         /\ \E i \in Trees : DeepCopy(i) \/ Edit(i)
@@ -283,13 +345,13 @@ PointerSemanticsIsValueSemantics ==
     /\ \A i \in Trees : \A c \in Classes : FlatP(obj, roots, i, c) = FlatV(val[i], c)
 
 (* every class's parent chain stays inside its own tree *)
-ParentClosed == \A i \in DOMAIN roots : \A c \in DOMAIN obj[roots[i]].kids :
-                    obj[obj[roots[i]].kids[c]].parent = roots[i]
+ParentClosed == \A i \in DOMAIN roots : \A c \in Nodes : KidQ(obj, roots, i, c) # 0 =>
+                    obj[KidQ(obj, roots, i, c)].parent = Container(obj, roots, i, c)
 
 (* an edit on tree i is invisible in every other tree and visible in every class of tree i that
    reaches the edited class (stated on the pointer semantics, as an action property) *)
 Independence ==
-    [][ last'.act \notin {"init", "deepcopy"} =>
+    [][ last'.act \notin {"init", "deepcopy", "flatten"} =>
           /\ \A j \in DOMAIN roots : j # last'.i =>
                 \A c \in Classes : FlatP(obj', roots', j, c) = FlatP(obj, roots, j, c)
           /\ \A c \in Classes : last'.c \in ReachV(val[last'.i], c) \cup ReachV(val'[last'.i], c)
